@@ -271,7 +271,7 @@ cdef class CJokerHelper:
                 # TODO: with line above, this now assumes diagonal Lambda
                 # Ainv[i, j] = Lambda_inv[i, j]
                 for n in range(self.n_times):
-                    self.Ainv[i, j] += (self.M_T[j, n] * self.ivar[n]
+                    self.Ainv[i, j] += (self.M_T[j, n] * self.s_ivar[n]
                                         * self.M_T[i, n])
 
                 # Make a copy because we do in-place LU decomp. below
@@ -314,7 +314,7 @@ cdef class CJokerHelper:
 
         # First make B:
         for n in range(self.n_times):
-            self.B[n, n] = 1 / self.ivar[n]  # TODO: Assumes diagonal covariance
+            self.B[n, n] = 1 / self.s_ivar[n]  # TODO: Assumes diagonal covariance
             for m in range(self.n_times):
                 self.Binv[n, m] = 0.
                 # TODO: this now assumes diagonal Lambda
@@ -330,13 +330,13 @@ cdef class CJokerHelper:
         # Compute Binv using A and the Woodbury matrix identity:
         # Binv = Cinv + Cinv @ M @ A @ M.T @ Cinv
         for n in range(self.n_times):
-            self.Binv[n, n] = self.ivar[n]
+            self.Binv[n, n] = self.s_ivar[n]
             for i in range(self.n_linear):
                 for m in range(self.n_times):
                     for j in range(self.n_linear):
-                        self.Binv[n, m] -= (self.ivar[n] * self.M_T[i, n]
+                        self.Binv[n, m] -= (self.s_ivar[n] * self.M_T[i, n]
                                             * self.A[i, j] * self.M_T[j, m]
-                                            * self.ivar[m])
+                                            * self.s_ivar[m])
 
         # Binv_py = np.diag(self.ivar) - np.diag(self.ivar) @ self.M_T.T @ self.A @ self.M_T @ np.diag(self.ivar)
         # print(np.allclose(Binv_py, np.array(self.Binv)))
@@ -398,7 +398,7 @@ cdef class CJokerHelper:
 
             for n in range(self.n_times):
                 for i in range(self.n_linear):
-                    self.a[i] += self.M_T[i, n] * self.ivar[n] * self.rv[n]
+                    self.a[i] += self.M_T[i, n] * self.s_ivar[n] * self.rv[n]
 
             for i in range(self.n_linear):
                 # TODO: this now assumes diagonal Lambda
